@@ -1973,31 +1973,16 @@ impl CommandParser {
                     options.xx = true;
                     i += 1;
                 }
-                "GET" => {
-                    options.get = true;
-                    i += 1;
-                }
-                "EX" => {
-                    if i + 1 >= frames.len() {
-                        return Err(FerrousError::Command(CommandError::SyntaxError("Missing EX value".to_string())));
+                "EX" | "PX" => {
+                    // as the SET handler: one expire option, its value an i64 that is > 0
+                    if i + 1 >= frames.len() || options.expiration.is_some() {
+                        return Err(FerrousError::Command(CommandError::SyntaxError("expire option".to_string())));
                     }
-                    let seconds = Self::extract_string(&frames[i + 1])?.parse::<u64>()
-                        .map_err(|_| FerrousError::Command(CommandError::InvalidIntegerValue))?;
-                    options.expiration = Some(Duration::from_secs(seconds));
+                    let n = Self::extract_string(&frames[i + 1])?.parse::<i64>().ok()
+                        .and_then(|n| u64::try_from(n).ok()).filter(|n| *n > 0)
+                        .ok_or(FerrousError::Command(CommandError::SyntaxError("invalid expire time in 'set' command".to_string())))?;
+                    options.expiration = Some(if opt == "EX" { Duration::from_secs(n) } else { Duration::from_millis(n) });
                     i += 2;
-                }
-                "PX" => {
-                    if i + 1 >= frames.len() {
-                        return Err(FerrousError::Command(CommandError::SyntaxError("Missing PX value".to_string())));
-                    }
-                    let millis = Self::extract_string(&frames[i + 1])?.parse::<u64>()
-                        .map_err(|_| FerrousError::Command(CommandError::InvalidIntegerValue))?;
-                    options.expiration = Some(Duration::from_millis(millis));
-                    i += 2;
-                }
-                "KEEPTTL" => {
-                    options.keepttl = true;
-                    i += 1;
                 }
                 _ => return Err(FerrousError::Command(CommandError::SyntaxError("Unknown SET option".to_string()))),
             }
@@ -2108,8 +2093,9 @@ impl CommandParser {
         if frames.len() != 4 {
             return Err(FerrousError::Command(CommandError::WrongNumberOfArguments("SETEX".into())));
         }
-        let seconds = Self::extract_string(&frames[2])?.parse::<u64>()
-            .map_err(|_| FerrousError::Command(CommandError::InvalidIntegerValue))?;
+        let seconds = Self::extract_string(&frames[2])?.parse::<i64>().ok()
+            .and_then(|n| u64::try_from(n).ok()).filter(|n| *n > 0)
+            .ok_or(FerrousError::Command(CommandError::InvalidIntegerValue))?;
         Ok(StringCommand::SetEx {
             key: Self::extract_bytes(&frames[1])?,
             value: Self::extract_bytes(&frames[3])?,
@@ -2121,8 +2107,9 @@ impl CommandParser {
         if frames.len() != 4 {
             return Err(FerrousError::Command(CommandError::WrongNumberOfArguments("PSETEX".into())));
         }
-        let milliseconds = Self::extract_string(&frames[2])?.parse::<u64>()
-            .map_err(|_| FerrousError::Command(CommandError::InvalidIntegerValue))?;
+        let milliseconds = Self::extract_string(&frames[2])?.parse::<i64>().ok()
+            .and_then(|n| u64::try_from(n).ok()).filter(|n| *n > 0)
+            .ok_or(FerrousError::Command(CommandError::InvalidIntegerValue))?;
         Ok(StringCommand::PSetEx {
             key: Self::extract_bytes(&frames[1])?,
             value: Self::extract_bytes(&frames[3])?,
